@@ -83,6 +83,7 @@ ChoiceOf ==
             ELSE LET C == {c \in QueueCandsAt(Z, P.qt) : c[1] = s /\ Matches(c[2], ln)}
                  IN IF C # {}
                     THEN [Choice("queue", s, 0, (CHOOSE c \in C : TRUE)[2], f) EXCEPT
+                            !.rh = hasRecv /\ Line(ri).k = "repl",
                             !.agg = IF hasAgg THEN Line(l + 1).d ELSE -1,
                             !.extra = IF hasRecv /\ ln.e = "TunnelSent" /\ Line(ri).k = "recv"
                                       THEN Line(ri).t - (ln.t + Z.cf.delay) ELSE 0]
